@@ -29,6 +29,9 @@ def run(tier, seed, t0):
         e = events[m[1] - 1]
         v.violation({"property": PID, "event": {k: e[k] for k in e if k not in ("doc", "out")}, "expected_L1": "round trip", "why": m[2],
                      "what": "Parse(%s).JSON() = %s : %s" % (e["text"], e["output"], m[2])})
+    for l in open(os.path.join(out, "c06.panics.ndjson")):
+        e = json.loads(l)
+        v.violation({"property": PID, "event": e, "what": "Parse(%s) -> JSON() -> Parse panics: %s" % (e["text"], e["msg"])})
     lsum, lstates, lrows = c07.run_lex(PID, v, tier, seed, out)
     rc = v.finish()
     cov = {
